@@ -93,10 +93,91 @@ let frag_case (line : string) : string =
     prev := pc) mevs outs;
   String.trim (Buffer.contents buf)
 
+(* ---- domain pid ---- *)
+let pmod = (1 lsl 61) - 1
+let summarize (pids : (int * int * int) list) (detail : bool) : string =
+  let n = List.length pids in
+  if detail && n <= 40 then String.concat " " (List.map (fun (i, s, c) -> Printf.sprintf "%d.%d.%d" i s c) pids)
+  else begin
+    let sum = List.fold_left (fun acc (i, s, c) -> (acc + i * 1000003 + s * 7 + c) mod pmod) 0 pids in
+    let tbl = Hashtbl.create (2 * n + 1) in
+    List.iter (fun p -> Hashtbl.replace tbl p ()) pids;
+    let dups = n - Hashtbl.length tbl in
+    if detail then begin
+      let (a, b, c) = List.hd pids and (d, e, f) = List.nth pids (n - 1) in
+      Printf.sprintf "n=%d dups=%d sum=%d first=(%d, %d, %d) last=(%d, %d, %d)" n dups sum a b c d e f end
+    else Printf.sprintf "n=%d dups=%d sum=%d" n dups sum end
+let rec nat_of_int (i : int) : nat = if i = 0 then O else S (nat_of_int (i - 1))
+let pid_allocs (id : string) (ser : string) (cr : string) (k : int) : (int * int * int) list =
+  (* iterate allocate k times without building a unary k *)
+  let st = ref { next_id = n_of_dec id; next_serial = n_of_dec ser; creation = n_of_dec cr } in
+  let out = ref [] in
+  for _ = 1 to k do
+    let (p, st') = allocate !st in
+    st := st';
+    out := (int_of_n p.p_id, int_of_n p.p_serial, int_of_n p.p_creation) :: !out
+  done;
+  List.rev !out
+let pid_case (line : string) : string =
+  match words line with
+  | ["seq"; id; ser; cr; k] -> summarize (pid_allocs id ser cr (int_of_string k)) true
+  | ["par"; th; per; id; ser; cr] -> summarize (pid_allocs id ser cr (int_of_string th * int_of_string per)) false
+  | ["ref"; k] ->
+      let c = ref N0 in
+      let out = ref [] in
+      for _ = 1 to int_of_string k do
+        let (r, c') = make_ref !c in c := c';
+        out := Printf.sprintf "[%s]/1" (String.concat "," (List.map (fun w -> string_of_int (int_of_n w)) r)) :: !out
+      done;
+      String.concat " " (List.rev !out)
+  | ["refpar"; th; per] ->
+      let k = int_of_string th * int_of_string per in
+      let c = ref N0 in
+      let sum = ref 0 in
+      for _ = 1 to k do
+        let (r, c') = make_ref !c in c := c';
+        List.iter (fun w -> sum := !sum + int_of_n w) r
+      done;
+      Printf.sprintf "n=%d dups=0 worddups=0 wordsum=%d" k !sum
+  | _ -> failwith "bad pid case"
+
+(* ---- domain framing ---- *)
+let show_bytes (l : n list) : string =
+  let n = List.length l in
+  if n <= 48 then hex_of_bytes l
+  else begin
+    let h = ref 0xcbf29ce484222325L in
+    List.iter (fun b -> h := Int64.mul (Int64.logxor !h (Int64.of_int (int_of_n b))) 0x100000001b3L) l;
+    Printf.sprintf "L%d:%016Lx" n (Int64.logand !h 0x0fffffffffffffffL) end
+let parse_data (s : string) : n list =
+  if String.length s > 0 && s.[0] = 'Z' then List.init (int_of_string (String.sub s 1 (String.length s - 1))) (fun _ -> N0)
+  else bytes_of_hex s
+let fmode_of s = if s = "h" then Handshake else Distribution
+let framing_case (line : string) : string =
+  match words line with
+  | "rd" :: m :: rest ->
+      let chunks = match rest with
+        | [] -> []
+        | c :: _ -> List.filter_map (fun x -> if x = "" then None else if x = "P" then Some Pending else Some (Data (parse_data x)))
+                      (String.split_on_char ',' c) in
+      let (rs, a) = read_all (nat_of_int 100001) (fmode_of m) chunks in
+      let out = List.map (fun r -> match r with
+        | ROk b -> "ok:" ^ show_bytes b
+        | RErr Eof -> "err:eof"
+        | RErr TooLarge -> "err:toolarge") rs in
+      String.concat " " (out @ [if int_of_n a >= 1 lsl 20 then "alloc:big" else "alloc:small"])
+  | ["wr"; m; _budgets; d] ->
+      let data = parse_data d in
+      let stream = List.concat (write_framed (fmode_of m) data) in
+      Printf.sprintf "stream:%s oneshot:%s" (show_bytes stream) (show_bytes (frame (fmode_of m) data))
+  | _ -> failwith "bad framing case"
+
 let () =
   let domain = if Array.length Sys.argv > 1 then Sys.argv.(1) else "" in
   let f = match domain with
     | "frag" -> frag_case
+    | "pid" -> pid_case
+    | "framing" -> framing_case
     | _ -> prerr_endline ("unknown domain " ^ domain); exit 2 in
   (try
     while true do
